@@ -41,32 +41,37 @@ def isPrefixOfSome (val : List Bytes) (ret : List (List Bytes)) : Bool := ret.an
 def dedupPaths (l : List (List Bytes)) : List (List Bytes) :=
   l.foldl (fun ret val => if !ret.contains val && !isPrefixOfSome val ret && !val.isEmpty then ret ++ [val] else ret) []
 
+/-! AddressedPaths: `addressedPathsOf` collects every chain with a mark saying whether it starts at the root of the data (a `$`
+    path); a filter puts the chain of the collection in front of the unmarked chains of its conditions only; the
+    de-duplication loop runs once, over everything collected. -/
 mutual
-def addrPath : PathOp → List (List Bytes)
-  | .mk _ _ _ _ ops _ => match ops with
+def apPath : PathOp → List (List Bytes × Bool)
+  | .mk _ root _ _ ops _ => match ops with
     | [] => []
-    | _ => dedupPaths (addrParts [] ops)
-def addrParts (idents : List Bytes) : List PathPart → List (List Bytes)
-  | [] => [idents]
-  | .ident name _ _ :: rest => addrParts (idents ++ [name]) rest
-  | .filter lo _ :: rest => (addrLogicRaw lo).map (fun v => idents ++ v) ++ addrParts idents rest
-  | .func _ _ params _ :: rest => addrParams params ++ addrParts idents rest
-def addrParams : List Param → List (List Bytes)
+    | _ => apParts root [] ops
+def apParts (root : Bool) (idents : List Bytes) : List PathPart → List (List Bytes × Bool)
+  | [] => [(idents, root)]
+  | .ident name _ _ :: rest => apParts root (idents ++ [name]) rest
+  | .filter lo _ :: rest => (apLogic lo).map (fun v => if v.2 then v else (idents ++ v.1, root)) ++ apParts root idents rest
+  | .func _ _ params _ :: rest => apParams params ++ apParts root idents rest
+def apParams : List Param → List (List Bytes × Bool)
   | [] => []
-  | .path p :: rest => addrPath p ++ addrParams rest
-  | _ :: rest => addrParams rest
-/-- for a filter the Go code iterates the operands of the group and calls AddressedPaths on each -/
-def addrLogicRaw : LogicOp → List (List Bytes)
-  | .mk _ _ _ ops _ => addrLogicParts ops
-def addrLogicParts : List LogicPart → List (List Bytes)
+  | .path p :: rest => apPath p ++ apParams rest
+  | .logic l :: rest => apLogic l ++ apParams rest
+  | _ :: rest => apParams rest
+def apLogic : LogicOp → List (List Bytes × Bool)
+  | .mk _ _ _ ops _ => apLogicParts ops
+def apLogicParts : List LogicPart → List (List Bytes × Bool)
   | [] => []
-  | .path p :: rest => addrPath p ++ addrLogicParts rest
-  | .logic l :: rest => dedupPaths (addrLogicRaw l) ++ addrLogicParts rest
+  | .path p :: rest => apPath p ++ apLogicParts rest
+  | .logic l :: rest => apLogic l ++ apLogicParts rest
 end
 
-def addrTop : TopOp → List (List Bytes)
-  | .path p => addrPath p
-  | .logic l => dedupPaths (addrLogicRaw l)
+def apTop : TopOp → List (List Bytes × Bool)
+  | .path p => apPath p
+  | .logic l => apLogic l
+
+def addrTop (t : TopOp) : List (List Bytes) := dedupPaths ((apTop t).map (·.1))
 
 def rootTop : TopOp → List Bytes
   | .path p => sortUniq (rootPath p)
